@@ -271,7 +271,7 @@ func ruleD3(c *Ctx, id string) {
 					atomicOnly = false
 					continue
 				}
-				cal := call.Call.StaticCallee()
+				cal := staticCallee(call)
 				if cal == nil || funcPkg(cal) == nil || funcPkg(cal).Path() != "sync/atomic" {
 					atomicOnly = false
 				}
